@@ -150,12 +150,8 @@ def parseSigned : Str → Option Int
   | ds => (parseDigits ds 0 false).map Int.ofNat
 
 /-- `int(s)` for a string: `none` = ValueError (ASCII fragment; callers check `isAscii`).  Surrounding
-    whitespace is stripped; a literal that parses as it stands contains no whitespace, so trying the
-    unstripped text first gives the same result. -/
-def parseInt (s : Str) : Option Int :=
-  match parseSigned s with
-  | some n => some n
-  | none => parseSigned (stripWs s)
+    whitespace is stripped first, as `int()` does. -/
+def parseInt (s : Str) : Option Int := parseSigned (stripWs s)
 
 /-- `float(n)` raises OverflowError exactly when |n| rounds to 2^1024 (ties-to-even). -/
 def floatOverflow (n : Int) : Bool := n.natAbs ≥ 2 ^ 1024 - 2 ^ 970
@@ -328,8 +324,9 @@ def encDictFold : DAcc → List (Val × Val) → Out DAcc
   | acc, [] => .ok acc
   | acc, (k, v) :: ps => (encDictStep acc k v).bind fun acc' => encDictFold acc' ps
 
-def DAcc.toVal : DAcc → Val
-  | .dict ps => .dict false ps
+/-- `constructor = type(obj); result = constructor()` (encoding.py:112-113): an OrderedDict stays an OrderedDict -/
+def DAcc.toVal (ordered : Bool) : DAcc → Val
+  | .dict ps => .dict ordered ps
   | .list xs => .list xs
 
 variable (henv : HEnv)
@@ -346,8 +343,7 @@ def encode : Val → Out Val
   | .tuple xs => (encodeL xs).bind fun ys => .ok (.list ys)
   | .set xs => (encodeL xs).bind fun ys => .ok (.list ys)
   | .dict ordered ps =>                                          -- encoding.py:110-124
-    if ordered then .unmodelled "encode(OrderedDict)".toList
-    else (encodeP ps).bind fun qs => (encDictFold (.dict []) qs).bind fun acc => .ok acc.toVal
+    (encodeP ps).bind fun qs => (encDictFold (.dict []) qs).bind fun acc => .ok (acc.toVal ordered)
   | .path s => .ok (.str s)                                      -- encoding.py:129-131
   | .enum _ n => .ok (.str n)                                    -- encoding.py:139-141
   | .none => .ok .none                                           -- deepcopy fallback, encoding.py:91
@@ -415,9 +411,8 @@ def jsonTr : Val → Out Val
   | .str s => .ok (.str s)
   | .list xs => (jsonTrL xs).bind fun ys => .ok (.list ys)
   | .tuple xs => (jsonTrL xs).bind fun ys => .ok (.list ys)
-  | .dict ordered ps =>
-    if ordered then .unmodelled "json of OrderedDict".toList
-    else (jsonTrP ps).bind fun qs => .ok (.dict false (qs.foldl (fun acc (k, v) => dictInsert k v acc) []))
+  | .dict _ ps =>      -- an OrderedDict is written as a JSON object like any dict, and read back as a dict
+    (jsonTrP ps).bind fun qs => .ok (.dict false (qs.foldl (fun acc (k, v) => dictInsert k v acc) []))
   | _ => .unmodelled "json of a non-primitive".toList
 def jsonTrL : List Val → Out (List Val)
   | [] => .ok []
@@ -457,7 +452,7 @@ mutual
 def hasTuple : Val → Bool
   | .tuple _ => true
   | .list xs => hasTupleL xs
-  | .dict _ ps => hasTupleP ps
+  | .dict ordered ps => ordered || hasTupleP ps   -- an OrderedDict is written as `!<OrderedDict>` + `!!python/tuple` items
   | _ => false
 def hasTupleL : List Val → Bool
   | [] => false
@@ -468,7 +463,9 @@ def hasTupleP : List (Val × Val) → Bool
 end
 
 /-- `yaml.safe_load(yaml.dump(v))`: faithful on primitives (dict order aside, which neither dict
-    equality nor `from_dict` looks at); a tuple is written as `!!python/tuple`, which safe_load refuses -/
+    equality nor `from_dict` looks at); a tuple is written as `!!python/tuple` and an OrderedDict as
+    `!<OrderedDict>` (serializable.py:41-56 registers its representer / constructor on the default Dumper / Loader
+    only), both of which safe_load refuses (`hasTuple`: "has a node safe_load cannot construct") -/
 def yamlTr (v : Val) : Out Val :=
   if isPrim v then .ok v
   else if hasTuple v then .raise "ConstructorError".toList
@@ -491,7 +488,7 @@ def decodeStr : Val → Out Val
   | .none => .ok (.str "None".toList)
   | .float r => .ok (.str r)
   | .path s => .ok (.str s)
-  | .enum c n => .ok (.str (c ++ '.' :: n))
+  | .enum _ _ => .unmodelled "str() of an Enum member (depends on its mix-in)".toList
   | _ => .unmodelled "str() of a container".toList
 
 /-- `_decode_int` (decoding.py:79-92): `int(v)`; `float(v)` is evaluated only for the warning test -/
@@ -504,6 +501,7 @@ def decodeInt : Val → Out Val
       | some n => .ok (.int n)
       | none => .raise "ValueError".toList
   | .float r => (intOfFloat r).bind fun n => .ok (.int n)
+  | .enum _ _ => .unmodelled "a raw Enum member (what the constructor makes of it depends on its mix-in)".toList
   | _ => tyErr
 
 /-- `_decode_float` (decoding.py:89-94) -/
@@ -512,6 +510,7 @@ def decodeFloat : Val → Out Val
   | .int n => (floatOfInt n).bind fun r => .ok (.float r)
   | .bool b => .ok (.float (if b then "1.0".toList else "0.0".toList))
   | .str s => (floatOfStr s).bind fun r => .ok (.float r)
+  | .enum _ _ => .unmodelled "a raw Enum member (what the constructor makes of it depends on its mix-in)".toList
   | _ => tyErr
 
 /-- `bool(v)` for a non-string -/
@@ -532,12 +531,14 @@ def decodeBool : Val → Out Val
   | .str s => match str2bool s with
     | some b => .ok (.bool b)
     | none => .raise "ArgumentTypeError".toList
+  | .enum _ _ => .unmodelled "a raw Enum member (what the constructor makes of it depends on its mix-in)".toList
   | v => .ok (.bool (truthy v))
 
 /-- `Path(v)` (decoding.py:521) -/
 def decodePath : Val → Out Val
   | .str s => .ok (.path (normPath s))
   | .path s => .ok (.path s)
+  | .enum _ _ => .unmodelled "a raw Enum member (what the constructor makes of it depends on its mix-in)".toList
   | _ => tyErr
 
 /-- `item_type[val]` (decoding.py:454-467): dict lookup in `_member_map_` -/
@@ -547,7 +548,9 @@ def decodeEnum (cls : Str) (members : List Str) : Val → Out Val
 
 /-- `_decode_literal` (decoding.py:481-487): `val not in possible_vals` → TypeError, else the raw value -/
 def decodeLiteral (vals : List Val) (v : Val) : Out Val :=
-  if vals.any (fun l => pyEq l v) then .ok v else tyErr
+  match v with
+  | .enum _ _ => .unmodelled "a raw Enum member (what the constructor makes of it depends on its mix-in)".toList     -- `Level.LOW == "low"` for a str-mixed member
+  | v => if vals.any (fun l => pyEq l v) then .ok v else tyErr
 
 /-- `iter(v)` as used by the list / tuple / set decoders (`for v in val`) -/
 def iterOf : Val → Out (List Val)
@@ -556,6 +559,7 @@ def iterOf : Val → Out (List Val)
   | .set xs => .ok xs
   | .str s => .ok (s.map (fun c => Val.str [c]))
   | .dict _ ps => .ok (ps.map Prod.fst)
+  | .enum _ _ => .unmodelled "a raw Enum member (what the constructor makes of it depends on its mix-in)".toList     -- a str-mixed member iterates over its characters
   | _ => tyErr
 
 /-- `for k, v in items` over a list (decoding.py:436-445) -/
@@ -568,6 +572,7 @@ def unpackPair : Val → Out (Val × Val)
   | .str _ => .raise "ValueError".toList
   | .set _ => .unmodelled "unpacking a set".toList
   | .dict _ _ => .unmodelled "unpacking a dict".toList
+  | .enum _ _ => .unmodelled "a raw Enum member (what the constructor makes of it depends on its mix-in)".toList
   | _ => tyErr
 
 /-- the items `_decode_dict` iterates over and whether the result is an OrderedDict (decoding.py:434-444);
@@ -678,5 +683,19 @@ def fromDict : FTy → Val → Out Val
 /-- one whole route: `from_dict(cls, transport(to_dict(x)))` -/
 def roundTrip (tr : Tr) (t : FTy) (x : Val) : Out Val :=
   (toDict henv x).bind fun d => (transport tr d).bind fun raw => fromDict henv t raw
+
+/-- `extensions` / `get_extension` (serializable.py:149-168): the codec is chosen by the file suffix.  Only the four
+    formats of the property are modelled (`.npy`, `.pth`, `.toml` need third-party packages); any other suffix is the
+    RuntimeError of `get_extension`. -/
+def extTr (ext : Str) : Out Tr :=
+  if ext = ".json".toList then .ok .json
+  else if ext = ".pkl".toList then .ok .id
+  else if ext = ".yaml".toList || ext = ".yml".toList then .ok .yaml
+  else if ext = ".npy".toList || ext = ".pth".toList || ext = ".toml".toList then .unmodelled "third-party codec".toList
+  else .raise "RuntimeError".toList
+
+/-- `load(cls, save(x, "f" + ext))` (serializable.py:480-543, 599-629): `to_dict`, the codec of the suffix, `from_dict` -/
+def saveLoad (ext : Str) (t : FTy) (x : Val) : Out Val :=
+  (extTr ext).bind fun tr => roundTrip henv tr t x
 
 end SpVerif.Serial
